@@ -355,11 +355,12 @@ Definition qcol (k : str) (d : adict) : option str :=
   match aget k d with None => Some dot | Some (AS s) => Some (quote s) | Some _ => None end.
 
 (* meta._gff after the copyattrs loop and the ID fallback, gff.py:128-137 *)
-Definition merged_gff (ft : feat) : adict :=
+Definition merged_gff_r (rid : str) (ft : feat) : adict :=
   let g := fold_left (fun g p => match aget (snd p) (fmeta ft) with Some v => aset (fst p) v g | None => g end)
                      copyattrs (getgff ft) in
   if Nat.ltb 1 (length (flocs ft)) && negb (match aget k_ID g with Some _ => true | None => false end)
-  then aset k_ID (AS random_id) g else g.
+  then aset k_ID (AS rid) g else g.
+Definition merged_gff (ft : feat) : adict := merged_gff_r random_id ft.
 Definition loc_meta (g : adict) (l : loc) : adict :=
   match lgff l with Some lg => aupdate g lg | None => g end.
 
@@ -383,8 +384,8 @@ Definition write_line_s (seqid type_ : str) (l : loc) (gm : adict) (mfull : adic
   | Some source => write_line seqid source type_ l gm (pop3 mfull)
   | None => None
   end.
-Definition write_feat (ft : feat) : option str :=
-  let g := merged_gff ft in
+Definition write_feat_r (rid : str) (ft : feat) : option str :=
+  let g := merged_gff_r rid ft in
   match flocs ft with
   | [] => None          (* cannot happen: LocationTuple is never empty *)
   | l0 :: rest =>
@@ -398,7 +399,7 @@ Definition write_feat (ft : feat) : option str :=
           | None => None
           | Some type_ =>
               let base := pop5 m0 in
-              let idv := match aget k_ID g with Some v => v | None => AS random_id end in
+              let idv := match aget k_ID g with Some v => v | None => AS rid end in
               concat_opt
                 (write_line_s seqid type_ l0 base m0 ::
                  map (fun l => let gm := filter (fun kv => negb (opt_aval_eqb (aget (fst kv) base) (snd kv))) (pop5 (loc_meta g l)) in
@@ -407,9 +408,20 @@ Definition write_feat (ft : feat) : option str :=
       | None => None
       end
   end.
+Definition write_feat (ft : feat) : option str := write_feat_r random_id ft.
 Definition gff_header : str := bs "##gff-version 3"%bs ++ nl.
 Definition write_gff (fts : list feat) : option str :=
   option_map (app gff_header) (concat_opt (map write_feat fts)).
+(* the harness writer: a split feature without ID gets an invented ID (10 random letters in sugar, one draw per feature);
+   the i-th feature's invented ID is canonicalised to "~id<i>" on both sides. Equal to write_gff on wf_C02 lists. *)
+Definition rid_of (i : nat) : str := bs "~id"%bs ++ dec_of_nat i.
+Fixpoint write_feats_h (i : nat) (fts : list feat) : list (option str) :=
+  match fts with
+  | [] => []
+  | f :: r => write_feat_r (rid_of i) f :: write_feats_h (S i) r
+  end.
+Definition write_gff_h (fts : list feat) : option str :=
+  option_map (app gff_header) (concat_opt (write_feats_h 0 fts)).
 
 (* Feature(type, locs=[...], meta=...) constructor: locations pass through LocationTuple; None = ValueError *)
 Definition mk_feature (f : feat) : option feat :=
@@ -494,6 +506,12 @@ Definition feat_ok (f : feat) : bool :=
   && negb (Nat.eqb (length (flocs f)) 0) && forallb loc_ok (flocs f) && one_strand (flocs f)
   && (Nat.leb (length (flocs f)) 1 || match aget k_ID (merged_gff f) with Some (AS _) => negb (str_eqb (match aget k_ID (merged_gff f) with Some (AS s) => s | _ => [] end) random_id) | Some _ => true | None => false end).
 Definition wf_C02 (fts : list feat) : bool := forallb feat_ok fts.
+(* harness domain: as feat_ok, but a split feature may lack an ID (the writer invents one) *)
+Definition feat_okh (f : feat) : bool :=
+  forallb meta_entry_ok (fmeta f) && keys_unique (fmeta f)
+  && match fgff f with Some d => gff_ok d | None => true end
+  && negb (Nat.eqb (length (flocs f)) 0) && forallb loc_ok (flocs f) && one_strand (flocs f).
+Definition wfh_C02 (fts : list feat) : bool := forallb feat_okh fts.
 
 (* property domain beyond faithfulness: the first 5'->3' location carries no attributes of its own
    (OPEN FINDING F39 firstloc_overrides: otherwise one write/read cycle moves them to the feature level, where the
@@ -607,21 +625,21 @@ Definition e_type : str := bs "TypeError"%bs.
 
 (* from an object list x: [x, w1 = write x, x1 = read w1, w2 = write x1, w3 = write (read w2)] *)
 Definition cycle_from (x : list feat) : val :=
-  match write_gff x with
+  match write_gff_h x with
   | None => VL [VB false; VB false; VE e_type]
   | Some w1 =>
       match read_gff w1 with
       | None => VL [VB false; VB false; VE e_value]
       | Some x1 =>
-          match write_gff x1 with
+          match write_gff_h x1 with
           | None => VL [VB false; VB false; VE e_type]
           | Some w2 =>
               match read_gff w2 with
               | None => VL [VB false; VB false; VE e_value]
               | Some x2 =>
-                  match write_gff x2 with
+                  match write_gff_h x2 with
                   | None => VL [VB false; VB false; VE e_type]
-                  | Some w3 => VL [VB (wf_C02 x && wf_C02 x1); VB (rt_C02 x); VL [v_feats x; VS w1; v_feats x1; VS w2; VS w3]]
+                  | Some w3 => VL [VB (wfh_C02 x && wfh_C02 x1); VB (rt_C02 x); VL [v_feats x; VS w1; v_feats x1; VS w2; VS w3]]
                   end
               end
           end
@@ -651,6 +669,75 @@ Definition run_C02_edit (t : str) (edits : list (nat * str * aval)) : val :=
   | Some x =>
       cycle_from (fold_left (fun x e => apply_edit x (Nat.modulo (fst (fst e)) (length x)) (snd (fst e)) (snd e)) edits x)
   end.
+(* ------------------------------------------------------------------ reader / writer options (gff.py:40-66, 118-126) *)
+Record ropts := mkRopts { o_filt : option (list str); o_fast : option str; o_default : option str }.
+Definition lower1 (c : byte) : byte :=
+  let n := bcode c in
+  if N.leb 65 n && N.leb n 90 then match Byte.of_N (n + 32) with Some d => d | None => c end else c.
+Definition lower (s : str) : str := map lower1 s.
+(* p in s *)
+Fixpoint infix (p s : str) : bool :=
+  startswith p s || match s with [] => false | _ :: r => infix p r end.
+(* read_fts_gff with filt / filt_fast / default_ftype / comments: features in reverse order and the comment lines collected *)
+Fixpoint read_lines_o (o : ropts) (ls : list str) (acc : list feat) (lastid : option gid) (cm : list str)
+  : option (list feat * list str) :=
+  match ls with
+  | [] => Some (rev acc, rev cm)
+  | line :: rest =>
+      if startswith (bs "##FASTA"%bs) line then Some (rev acc, rev cm)
+      else if match o_fast o with Some ff => negb (infix (lower ff) (lower (line ++ nl))) | None => false end
+      then read_lines_o o rest acc lastid cm
+      else if startswith (bs "#"%bs) line || Nat.eqb (length (strip line)) 0 then read_lines_o o rest acc lastid (line :: cm)
+      else
+        match split_on c_tab (strip line) with
+        | [_; _; c3; _; _; _; _; _; _] =>
+            let ty := if str_eqb (unquote c3) dot then o_default o else Some (unquote c3) in
+            let skip := match o_filt o with
+                        | Some (x :: r) => negb (match ty with Some t => existsb (str_eqb t) (x :: r) | None => false end)
+                        | _ => false
+                        end in
+            if skip then read_lines_o o rest acc lastid cm else
+            match parse_line line with
+            | None => None
+            | Some gl0 =>
+                let gl := mkLine ty (g_seqid gl0) (g_loc gl0) (g_attrs gl0) in
+                let attrs := g_attrs gl in
+                let id_ := match aget k_ID attrs with Some i => Some (i, g_type gl, g_seqid gl) | None => None end in
+                let same := match id_, lastid with Some a, Some b => gid_eqb a b | _, _ => false end in
+                match same, acc with
+                | true, f :: acc' =>
+                    let d := diff_attrs attrs (getgff f) [] in
+                    let l := g_loc gl in
+                    let l' := mkLoc (lstart l) (lstop l) (lstrand l) (match d with [] => None | _ => Some d end) in
+                    match loc_tuple (flocs f ++ [l']) with
+                    | None => None
+                    | Some locs' => read_lines_o o rest (mkFeat (fmeta f) (fgff f) locs' :: acc') id_ cm
+                    end
+                | _, _ =>
+                    let m := match g_type gl with Some t => [(k_type, AS t)] | None => [] end in
+                    read_lines_o o rest (mkFeat m (Some attrs) [g_loc gl] :: acc) id_ cm
+                end
+            end
+        | _ => None
+        end
+  end.
+Definition no_opts : ropts := mkRopts None None None.
+(* write_fts_gff(header=...): the header text follows the version line when it is not empty *)
+Definition write_gff_hdr (header : str) (fts : list feat) : option str :=
+  option_map (fun body => gff_header ++ header ++ body) (concat_opt (write_feats_h 0 fts)).
+(* op 4: text read with options, comment lines, and the list written with a header *)
+Definition run_C02_opt (t : str) (o : ropts) (header : str) : val :=
+  if negb (all_ascii t) || has x0d t then VL [VB false; VB false; VNone]
+  else
+  match read_lines_o o (file_lines t) [] None [] with
+  | None => VL [VB false; VB false; VE e_value]
+  | Some (x0, cm) =>
+      let x := map copy_attrs_in x0 in
+      match write_gff_hdr header x with
+      | None => VL [VB false; VB false; VE e_type]
+      | Some w => VL [VB (wfh_C02 x); VB (rt_C02 x); VL [v_feats x; VL (map VS cm); VS w]]
+      end
+  end.
 (* op 1: abstract features (as given to the Feature constructor) -> write, read, ... *)
 Definition run_C02_obj (x : list feat) : val :=
   match map_opt mk_feature x with
@@ -665,6 +752,20 @@ Definition xtype_ok (f : feat) : bool :=
   | Some v => type_ok v && match v with AS (c :: _) => negb (is_digit c) && negb (byte_eqb c "."%byte) && negb (byte_eqb c "-"%byte) | _ => false end
   | None => false
   end.
+(* frompandas(df, ftype): without a type column the type is the column named ftype (here: strand) or ftype itself (fts.py:434-439) *)
+Inductive ftsel := FNone | FStrand | FLit (s : str).
+Definition xrecord_t (ft : ftsel) (ks : list xkey) (row : list cell) : option (option (option str * Z * Z * byte)) :=
+  match xrecord ks row with
+  | Some (Some (ty, a, b, sd)) =>
+      let ty' := if xhas KType ks then ty else
+                 match ft with
+                 | FNone => ty
+                 | FLit s => Some s
+                 | FStrand => if xhas KStrand ks then Some [sd] else Some (bs "strand"%bs)
+                 end in
+      Some (Some (ty', a, b, sd))
+  | r => r
+  end.
 Definition run_C02_xsv (ks : list xkey) (x : list feat) : val :=
   match map_opt mk_feature x with
   | None => VL [VB false; VB false; VE e_value]
@@ -672,6 +773,24 @@ Definition run_C02_xsv (ks : list xkey) (x : list feat) : val :=
       let rows := map (xrow ks) x' in
       let recs := map (xrecord ks) rows in
       let dom := forallb xtype_ok x' && negb (Nat.eqb (length x') 0) in
+      if existsb (fun r => match r with None => true | Some _ => false end) recs
+      then VL [VB false; VB false; VE (bs "KeyError"%bs)]
+      else if existsb (fun r => match r with Some None => true | _ => false end) recs
+      then VL [VB false; VB false; VE e_value]
+      else VL [VB dom; VB dom;
+               VL [VL (map (fun r => VL (map v_cell r)) rows);
+                   VL (map (fun r => match r with
+                                     | Some (Some (ty, a, b, sd)) => VL [VOpt VS ty; VI a; VI b; VS [sd]]
+                                     | _ => VNone end) recs)]]
+  end.
+(* op 5: table bridge with the ftype option *)
+Definition run_C02_xsv_t (ft : ftsel) (ks : list xkey) (x : list feat) : val :=
+  match map_opt mk_feature x with
+  | None => VL [VB false; VB false; VE e_value]
+  | Some x' =>
+      let rows := map (xrow ks) x' in
+      let recs := map (xrecord_t ft ks) rows in
+      let dom := (xhas KType ks || match ft with FNone => false | _ => true end) && forallb xtype_ok x' && negb (Nat.eqb (length x') 0) in
       if existsb (fun r => match r with None => true | Some _ => false end) recs
       then VL [VB false; VB false; VE (bs "KeyError"%bs)]
       else if existsb (fun r => match r with Some None => true | _ => false end) recs
